@@ -9,12 +9,13 @@ code -> spec : reports of the real code on random pairs up to length 4 and the i
 """
 import itertools
 import json
+import random
 
 from permuta import MeshPatt, Perm
 
 from harness import tlc, util
 
-INVS = ["TypeOK", "SubSound", "SubStrongest", "InMeshSound", "ClassicalAsUnshaded"]
+INVS = ["TypeOK", "SubSound", "SubStrongest", "InMeshSound", "ClassicalAsUnshaded", "SelfOccurs", "OccCompose"]
 
 
 def mkey(M):
@@ -36,7 +37,19 @@ def smalls(rnd, quick):
     return out
 
 
-def judge_state(ctx, rec, sm):
+def index_forms(S, salt):
+    """The same set of points handed over in different containers / orders."""
+    S = list(S)
+    sh = list(S)
+    random.Random(salt).shuffle(sh)
+    return [("list", list(S)), ("reversed list", list(reversed(S))), ("iterator", iter(S)), ("tuple", tuple(S)),
+            ("set", set(S)), ("frozenset", frozenset(reversed(S))), ("generator", (i for i in sh)), ("shuffled list", sh),
+            ("dict keys", dict.fromkeys(sh).keys()), ("range", range(S[0], S[-1] + 1)) if S and S == list(range(S[0], S[-1] + 1)) else ("map", map(int, sh)),
+            ("reversed iterator", reversed(S))]
+
+
+def judge_state(ctx, rec, sm, rnd=None):
+    rnd = rnd or random.Random(len(rec["R"]))
     M2 = MeshPatt(Perm(rec["p"]), [tuple(c) for c in rec["R"]])
     base = {"kind": "state", "p": rec["p"], "R": sorted(rec["R"])}
     hit = False
@@ -66,18 +79,148 @@ def judge_state(ctx, rec, sm):
             # this is C03's business; here only the unshaded-in-unshaded case is compared
             if not R1 and (st == "raise" or got != rec["occ"][k]):
                 ctx.violation(dict(base, small={"p": list(p1), "R": []}, form="in-classical"), "InMeshOccurrencesExact", rec["occ"][k], got)
-    for s in rec["subs"]:
-        want = (tuple(s["p"]), tuple(sorted(map(tuple, s["R"]))))
-        for form in (list(s["S"]), list(reversed(s["S"])), iter(s["S"])):
-            st, got = util.call(M2.sub_mesh_pattern, form)
-            if st == "raise" or mkey(got) != want:
-                ctx.violation(dict(base, S=s["S"]), "InducedSubPattern", want, mkey(got) if st == "ok" else got)
-                break
+    # the pattern inside itself (as the same object and as an equal object)
+    for form, other in (("same object", M2), ("equal object", MeshPatt(Perm(rec["p"]), [tuple(c) for c in reversed(rec["R"])]))):
+        st, got = util.call(lambda: sorted(list(t) for t in other.occurrences_in(M2)))
+        if st == "raise" or got != rec["self"] or not M2.contains(other) or M2.avoids(other):
+            ctx.violation(dict(base, small="itself", form=form), "InMeshOccurrencesExact", rec["self"], got)
+    subs = list(rec["subs"])
+    for rnd_pass in range(2):                                    # the same object is asked again, in another order
+        for s in subs:
+            want = (tuple(s["p"]), tuple(sorted(map(tuple, s["R"]))))
+            for fname, form in index_forms(s["S"], len(s["S"]) + rnd_pass):
+                st, got = util.call(M2.sub_mesh_pattern, form)
+                if st == "raise" or mkey(got) != want:
+                    ctx.violation(dict(base, S=s["S"], form=fname, asked="again" if rnd_pass else "first"), "InducedSubPattern", want, mkey(got) if st == "ok" else got)
+                    break
+        rnd.shuffle(subs)
+    # several patterns in one call; two searches alive at once on the same pair of objects; everything asked again
+    objs = [MeshPatt(Perm(p1), R1) for p1, R1 in sm]
+    for _ in range(4):
+        ks = [rnd.randrange(len(sm)) for _ in range(rnd.randint(0, 3))]
+        exp = (all(len(rec["occ"][k]) > 0 for k in ks), all(len(rec["occ"][k]) == 0 for k in ks))
+        st, got = util.call(lambda: (M2.contains(*[objs[k] for k in ks]), M2.avoids(*[objs[k] for k in ks])))
+        if st == "raise" or got != exp:
+            ctx.violation(dict(base, smalls=[{"p": list(sm[k][0]), "R": [list(c) for c in sm[k][1]]} for k in ks]), "ContainsAvoidsAll", exp, got)
+    ka, kb = rnd.randrange(len(sm)), rnd.randrange(len(sm))
+    st, got = util.call(lambda: interleave(objs[ka].occurrences_in(M2), objs[kb].occurrences_in(M2), objs[ka].occurrences_in(M2)))
+    exp = [rec["occ"][ka], rec["occ"][kb], rec["occ"][ka]]
+    if st == "raise" or got != exp:
+        ctx.violation(dict(base, small=[{"p": list(sm[k][0]), "R": [list(c) for c in sm[k][1]]} for k in (ka, kb)], form="three searches alive at once"),
+                      "InMeshOccurrencesExact", exp, got)
+    for k in (ka, kb):
+        st, got = util.call(lambda: sorted(list(t) for t in objs[k].occurrences_in(M2)))
+        if st == "raise" or got != rec["occ"][k]:
+            ctx.violation(dict(base, small={"p": list(sm[k][0]), "R": [list(c) for c in sm[k][1]]}, form="asked again after the sub-patterns"),
+                          "InMeshOccurrencesExact", rec["occ"][k], got)
     ctx.case(mkey(M2), nontrivial=hit and len(rec["R"]) > 0)
+
+
+def interleave(*its):
+    """Consume several lazy searches alternately; returns the sorted yields of each."""
+    outs = [[] for _ in its]
+    live = list(range(len(its)))
+    while live:
+        for i in list(live):
+            try:
+                outs[i].append(list(next(its[i])))
+            except StopIteration:
+                live.remove(i)
+    return [sorted(o) for o in outs]
 
 
 def rand_mesh(rnd, k, dens):
     return (util.rand_perm(rnd, k), [(x, y) for x in range(k + 1) for y in range(k + 1) if rnd.random() < dens])
+
+
+def special_mesh(rnd, k):
+    """Larger patterns with structure: fully shaded, unshaded, a fully shaded band (wide or tall), a sub-pattern
+    that was planted (so that containment is reported), monotone / layered underlying permutations."""
+    kind = rnd.randrange(6)
+    p = util.rand_perm(rnd, k)
+    if kind == 0:
+        p = tuple(range(k)) if rnd.random() < 0.5 else tuple(reversed(range(k)))
+    cells = [(x, y) for x in range(k + 1) for y in range(k + 1)]
+    if kind == 1:
+        return p, cells
+    if kind == 2:
+        return p, []
+    if kind == 3:                                        # a band: columns a..b x rows c..d fully shaded, rest sparse
+        a, b = sorted((rnd.randint(0, k), rnd.randint(0, k)))
+        c = rnd.randint(0, k)
+        d = min(k, c + rnd.choice([0, 1, 1, 2]))
+        if rnd.random() < 0.5:
+            band = {(x, y) for x in range(a, b + 1) for y in range(c, d + 1)}
+        else:
+            band = {(y, x) for x in range(a, b + 1) for y in range(c, d + 1)}
+        return p, sorted(band | {cc for cc in cells if rnd.random() < 0.15})
+    dens = rnd.choice([0.3, 0.6, 0.9, 0.97])
+    return p, [cc for cc in cells if rnd.random() < dens]
+
+
+def larger_events(ctx, rnd, quick, events):
+    """code -> spec beyond the exhaustive bound: larger patterns of length 4-6 (sampled / structured shadings), smaller
+    ones up to length 4, boundary point subsets in every container form, a pattern inside itself, several patterns
+    in one call, the same objects asked repeatedly and with several searches alive; judged by Trace_C06."""
+    nrep = 0
+    for it in range(120 if quick else 1200):
+        k2 = rnd.choice([4, 5, 5, 6, 6])
+        p2, R2 = special_mesh(rnd, k2)
+        M2 = MeshPatt(Perm(p2), R2)
+        j2 = [list(c) for c in R2]
+        # point subsets: boundary ones, everything, nothing, random; in a random container form
+        cand = [[], list(range(k2)), [0], [k2 - 1], [0, k2 - 1], [p2.index(0)], [p2.index(k2 - 1)], list(range(1, k2)), list(range(k2 - 1))]
+        cand += [sorted(rnd.sample(range(k2), rnd.randint(1, k2 - 1))) for _ in range(3)]
+        subs = []
+        for S in cand:
+            fname, form = rnd.choice(index_forms(S, it))
+            st, Sb = util.call(M2.sub_mesh_pattern, form)
+            if st == "raise":
+                ctx.violation({"kind": "trace-form", "p": list(p2), "R": j2, "S": S, "form": fname}, "InducedSubPattern", "a pattern", {"raised": Sb})
+                continue
+            events.append({"op": "Sub", "p": list(p2), "R": j2, "S": S, "form": fname, "resp": list(Sb.pattern), "resR": [list(c) for c in Sb.shading]})
+            subs.append((S, Sb))
+        # smaller patterns: the induced sub-patterns themselves (weakened or not), M2 itself, random ones, classical ones
+        smalls = []
+        for S, Sb in subs[:: 3]:
+            if len(S) <= 4:
+                keep = [c for c in sorted(Sb.shading) if rnd.random() < rnd.choice([1.0, 0.7])]
+                smalls.append((tuple(Sb.pattern), keep))
+        smalls.append((p2, R2))
+        k1 = rnd.randint(1, 4)
+        smalls.append(rand_mesh(rnd, k1, rnd.choice([0.0, 0.1, 0.3])))
+        smalls.append((util.rand_perm(rnd, rnd.randint(1, 3)), []))
+        smalls.append(((), [(0, 0)] if it % 2 else []))                      # the empty pattern, shaded or not
+        objs = []
+        for p1, R1 in smalls:
+            M1 = MeshPatt(Perm(p1), R1) if (R1 or rnd.random() < 0.5) else Perm(p1)
+            objs.append(M1)
+            j1 = [list(c) for c in R1]
+            st, got = util.call(lambda: interleave(M1.occurrences_in(M2), M1.occurrences_in(M2)))
+            if st == "raise" or got[0] != got[1]:
+                ctx.violation({"kind": "trace-form", "p1": list(p1), "R1": j1, "p2": list(p2), "R2": j2, "form": "two searches alive at once"},
+                              "InMeshOccurrencesExact", "the same occurrences from both searches", got)
+                continue
+            res = got[0]
+            events.append({"op": "Occ", "p1": list(p1), "R1": j1, "p2": list(p2), "R2": j2, "res": res})
+            if res and (p1, R1) != (p2, R2):
+                nrep += 1
+                for _ in range(2):
+                    q = util.rand_perm(rnd, rnd.randint(k2, 7))
+                    if rnd.random() < 0.5:                 # a permutation that does contain the larger pattern
+                        q = tuple(Perm(p2).inflate([Perm((0,))] * k2)) if R2 and len(R2) == (k2 + 1) ** 2 else q
+                    Q = Perm(q)
+                    events.append({"op": "Implies", "p1": list(p1), "R1": j1, "p2": list(p2), "R2": j2, "q": list(q),
+                                   "c2": Q.contains(M2), "c1": Q.contains(MeshPatt(Perm(p1), R1))})
+        for _ in range(2):
+            ks = [rnd.randrange(len(smalls)) for _ in range(rnd.choice([0, 1, 2, 2, 3]))]
+            st, got = util.call(lambda: (M2.contains(*[objs[k] for k in ks]), M2.avoids(*[objs[k] for k in ks])))
+            if st == "raise":
+                ctx.violation({"kind": "trace-form", "p2": list(p2), "R2": j2, "form": "contains/avoids(*patts)"}, "ContainsAvoidsAll", "two booleans", {"raised": got})
+                continue
+            events.append({"op": "All", "ms": [{"p": list(smalls[k][0]), "R": [list(c) for c in smalls[k][1]]} for k in ks],
+                           "p2": list(p2), "R2": j2, "contains": got[0], "avoids": got[1]})
+    return nrep
 
 
 def run(ctx):
@@ -107,7 +250,7 @@ def run(ctx):
         ctx.add_tlc(r, "universe shard")
         for rec in r.records:
             n += 1
-            judge_state(ctx, rec, sm)
+            judge_state(ctx, rec, sm, rnd)
             if n % 307 == 0:
                 ctx.sample({"machine": "C06_MeshInMesh", "p": rec["p"], "R": rec["R"], "subs": rec["subs"][:2], "occ_first": rec["occ"][:4]})
     if n != 1042 + len(smp):
@@ -137,6 +280,7 @@ def run(ctx):
                 Q = Perm(q)
                 events.append({"op": "Implies", "p1": list(p1), "R1": j1, "p2": list(p2), "R2": j2, "q": list(q),
                                "c2": Q.contains(M2), "c1": Q.contains(M1)})
+    nrep += larger_events(ctx, rnd, quick, events)
     if nrep == 0:
         raise tlc.MachineryFailure("C06: no containment was ever reported by the real code in the random pairs")
     v = util.validate_trace(ctx, "Trace_C06", events, ntraces=len(events))
@@ -158,10 +302,16 @@ def replay(ctx, path):
         raise tlc.MachineryFailure("trace events are replayed by re-running the check with the same VERIF_SEED")
     M2 = MeshPatt(Perm(case["p"]), [tuple(c) for c in case["R"]])
     events = []
-    if "small" in case:
-        M1 = MeshPatt(Perm(case["small"]["p"]), [tuple(c) for c in case["small"]["R"]])
-        events.append({"op": "Occ", "p1": case["small"]["p"], "R1": case["small"]["R"], "p2": case["p"], "R2": case["R"],
+    smalls = case.get("small")
+    if smalls == "itself":
+        smalls = {"p": case["p"], "R": case["R"]}
+    for sm1 in ([smalls] if isinstance(smalls, dict) else smalls or []):
+        M1 = MeshPatt(Perm(sm1["p"]), [tuple(c) for c in sm1["R"]])
+        events.append({"op": "Occ", "p1": sm1["p"], "R1": sm1["R"], "p2": case["p"], "R2": case["R"],
                        "res": sorted(list(t) for t in M1.occurrences_in(M2))})
+    if "smalls" in case:
+        objs = [MeshPatt(Perm(m["p"]), [tuple(c) for c in m["R"]]) for m in case["smalls"]]
+        events.append({"op": "All", "ms": case["smalls"], "p2": case["p"], "R2": case["R"], "contains": M2.contains(*objs), "avoids": M2.avoids(*objs)})
     if "S" in case:
         Sb = M2.sub_mesh_pattern(case["S"])
         events.append({"op": "Sub", "p": case["p"], "R": case["R"], "S": case["S"], "resp": list(Sb.pattern), "resR": [list(c) for c in Sb.shading]})
